@@ -9,13 +9,39 @@ mod s_heap;
 mod s_hser;
 mod s_hll;
 mod s_lossy;
+mod s_mem;
 mod s_res;
+mod s_sizing;
 mod s_td;
 
 use rec::{RecBuild, ScriptRng};
 use std::collections::HashMap;
 use std::io::{BufRead, Write};
 use std::panic::{catch_unwind, AssertUnwindSafe};
+
+/// live heap bytes of the whole harness process (property C11 measures differences around one structure's lifetime)
+pub static LIVE: std::sync::atomic::AtomicI64 = std::sync::atomic::AtomicI64::new(0);
+struct Counting;
+unsafe impl std::alloc::GlobalAlloc for Counting {
+    unsafe fn alloc(&self, l: std::alloc::Layout) -> *mut u8 {
+        LIVE.fetch_add(l.size() as i64, std::sync::atomic::Ordering::SeqCst);
+        std::alloc::System.alloc(l)
+    }
+    unsafe fn dealloc(&self, p: *mut u8, l: std::alloc::Layout) {
+        LIVE.fetch_sub(l.size() as i64, std::sync::atomic::Ordering::SeqCst);
+        std::alloc::System.dealloc(p, l)
+    }
+    unsafe fn alloc_zeroed(&self, l: std::alloc::Layout) -> *mut u8 {
+        LIVE.fetch_add(l.size() as i64, std::sync::atomic::Ordering::SeqCst);
+        std::alloc::System.alloc_zeroed(l)
+    }
+    unsafe fn realloc(&self, p: *mut u8, l: std::alloc::Layout, n: usize) -> *mut u8 {
+        LIVE.fetch_add(n as i64 - l.size() as i64, std::sync::atomic::Ordering::SeqCst);
+        std::alloc::System.realloc(p, l, n)
+    }
+}
+#[global_allocator]
+static ALLOC: Counting = Counting;
 
 pub struct Case {
     pub id: String,
@@ -75,6 +101,8 @@ fn make_driver(st: &str, cfg: &HashMap<String, String>) -> Box<dyn Driver> {
         },
         "hll" | "hllc" => Box::new(s_hll::D::default()),
         "hser" => Box::new(s_hser::D::default()),
+        "sizing" => Box::new(s_sizing::D::default()),
+        "mem" => Box::new(s_mem::D::default()),
         "cuckoo" => Box::new(s_filter::D::<s_filter::Cuckoo>::default()),
         "qf" => Box::new(s_filter::D::<s_filter::Quot>::default()),
         "res" => Box::new(s_res::D::default()),
@@ -162,7 +190,7 @@ fn run_pass(case: &Case, mode_fresh: bool) -> Pass {
             }
         }
         // scripted RNG words go to the slot of the op's first instance argument
-        let slot: usize = if op2.len() > 1 { op2[1].parse().unwrap_or(0) } else { 0 };
+        let slot: usize = if op2.len() > 1 { op2[1].parse::<usize>().unwrap_or(0).min(63) } else { 0 };
         let rng = ctx.rng(slot);
         for w in pending_words.drain(..) {
             rng.push(w);
